@@ -97,8 +97,15 @@ fn ops_from_json(v: &Value) -> Vec<Op> {
         .unwrap_or_default()
 }
 
+/// A remove op with id >= FORGET stands for "the router forgets the address of node id-FORGET while the ring
+/// still lists it" (an address book lagging behind the ring).
+const FORGET: u64 = 1000;
+
 fn show_ops(ops: &[Op]) -> String {
-    ops.iter().map(|o| format!("{}({})", if o.0 { "add" } else { "remove" }, o.1)).collect::<Vec<_>>().join(",")
+    ops.iter()
+        .map(|o| if o.1 >= FORGET { format!("forget-address({})", o.1 - FORGET) } else { format!("{}({})", if o.0 { "add" } else { "remove" }, o.1) })
+        .collect::<Vec<_>>()
+        .join(",")
 }
 
 fn permutations(items: &[u64]) -> Vec<Vec<u64>> {
@@ -591,6 +598,15 @@ fn build_env(ctor: &str, mem: &[u64], c: Cfg, sender: u64) -> Env {
 /// Membership change on the shared ring, followed by the router's dynamic-membership calls
 /// (`update_peer` / `remove_peer`; the state's private router is replaced through `set_router`).
 fn env_change(env: &mut Env, op: Op) {
+    if op.1 >= FORGET {
+        let x = op.1 - FORGET;
+        env.router.remove_peer(ReplicaId::new(x));
+        env.peer_ids.retain(|p| *p != x);
+        let r = mk_router("new", &env.ring, env.sender, &env.peer_ids, env.cfg);
+        env.state.set_router(r);
+        env.changed = true;
+        return;
+    }
     {
         let mut w = env.ring.write().expect("ring lock");
         apply(&mut w, op);
@@ -645,7 +661,8 @@ fn eval_batch(env: &mut Env, api: &str, batch: &[&str]) -> BatchResult {
         let ring = env.ring.read().expect("ring lock");
         batch
             .iter()
-            .map(|k| ring.get_replicas(k).into_iter().map(|r| r.0).filter(|r| *r != sender).collect())
+            // an owner the router has no address for cannot be handed anything; every other owner must be
+            .map(|k| ring.get_replicas(k).into_iter().map(|r| r.0).filter(|r| *r != sender && env.peer_ids.contains(r)).collect())
             .collect()
     };
     let all_peers: BTreeSet<u64> = {
@@ -862,6 +879,17 @@ fn stage_route(c: Cfg, mask: u32, universe: u64, keys: &[String], small: usize, 
             }
             let mut env = build_env("new", &mem, c, sender);
             env_change(&mut env, op);
+            run_batches(&mut env, &mem, &[op], &bs_dyn, &mut acc, &mut tsets);
+        }
+        // address book lagging behind the ring: the router no longer knows one member's address
+        for &x in &mem {
+            if x == sender || mem.len() < 3 {
+                continue;
+            }
+            let op: Op = (false, FORGET + x);
+            let mut env = build_env("new", &mem, c, sender);
+            env_change(&mut env, op);
+            acc.count("forgotten_address_routers", 1);
             run_batches(&mut env, &mem, &[op], &bs_dyn, &mut acc, &mut tsets);
         }
     }
